@@ -100,3 +100,34 @@ Theorem C02_destroy_observation : forall cfg d qs st w r e b bd s, RInv d st ->
   | None => step cfg d qs st (ODestroy (LArch b) KEnt TAny r) = Some (st, [0%N])
   end.
 Proof. exact step_destroy_any_arch. Qed.
+
+(* ---------------------------------------------------------------- the model refines the oracle, writes included *)
+From Gecs Require Import Spec OracleSim.
+
+(** "Every access path returns the entity's own, latest component values", as the specification oracle reads
+    it on implementation traces: a write replaces one value of one entity in the oracle's record, and every later
+    probe must show, on every path, exactly the recorded values of the entity probed.  For ALL histories of the
+    core language - creations, destructions, to_direct, writes through the six direct write paths and probes, with
+    any issued handle (live, stale, of another archetype), in any order - the oracle accepts the whole run of the
+    model (C01_the_model_refines_the_oracle_on_the_core_language is the same theorem). *)
+Theorem C02_the_model_refines_the_oracle_writes_included : forall cfg d qs caps w ops,
+  wrapping cfg = false -> wf_decl d -> NoDup (da_id <$> wd_archs d) ->
+  length caps = length (wd_archs d) -> new_world (wd_archs d) caps = Ok w tt ->
+  forallb (l0_op d) ops = true ->
+  spec_check cfg d qs (ONew caps :: ops) (run cfg d qs (ONew caps :: ops)) = None.
+Proof. exact core_language_refines_the_oracle. Qed.
+
+(** Non-vacuity: writes through several paths, seen by later probes (the archetype-level probe's views show the row). *)
+Definition c02_core_decl : wdecl := WD [DA 0%N 0 [DC 0%N 0]; DA 3%N 1 [DC 0%N 0; DC 1%N 1]] [].
+Definition c02_core_ops : list op :=
+  [OCreate 1 5%N; OCreate 1 6%N; OWrite WView 1 KEnt TAny (RIssued 0) 1 77%N; OProbe (LArch 1) KEnt TAny (RIssued 0);
+   OWrite WSlices 1 KEnt TAny (RIssued 1) 0 88%N; ODestroy (LArch 1) KEnt TAny (RIssued 0); OProbe (LArch 1) KEnt TAny (RIssued 1);
+   OWrite WBorrow 1 KEnt TAny (RIssued 0) 0 1%N; OWrite WIterMut 0 KEnt TAny (RIssued 1) 0 2%N; OWrite WSlice 1 KEnt TAny (RIssued 1) 7 3%N;
+   ODestroy LWorld KEnt TAny (RIssued 1)].
+Example C02_core_language_instance :
+  forallb (l0_op c02_core_decl) c02_core_ops = true /\
+  spec_check (Config false false true) c02_core_decl [] (ONew [1; 1] :: c02_core_ops)
+             (run (Config false false true) c02_core_decl [] (ONew [1; 1] :: c02_core_ops)) = None /\
+  nth 4 (run (Config false false true) c02_core_decl [] (ONew [1; 1] :: c02_core_ops)) [] =
+    [1; 1; 0; 1; 3; 1; 1; 0; 3; 1; 320; 77; 1; 0; 3; 1; 320; 77]%N.
+Proof. vm_compute. repeat split; reflexivity. Qed.
